@@ -16,6 +16,10 @@ from labtech.types import is_task
 
 import lv_universe as U
 import lv_universe2 as U2
+import lv_pkg.sub.defs as _PD
+import lv_pkg.other as _PO
+
+MODULES = {'lv_universe': U, 'lv_universe2': U2, 'lv_pkg.sub.defs': _PD, 'lv_pkg.other': _PO}
 from common import g_bool, g_list, g_N, g_Z
 
 CANON_NAN = struct.unpack('<Q', struct.pack('<d', float('nan')))[0]
@@ -29,32 +33,37 @@ SCALAR_POOL = [
     ['str', 'a.b/c\\d'], ['str', '\ud800'], ['str', 'True'], ['str', '1'],
     ['enum', 'lv_universe', 'Color', 'RED'], ['enum', 'lv_universe', 'Color', 'GREEN'],
     ['enum', 'lv_universe', 'Shade', 'RED'], ['enum', 'lv_universe2', 'Color', 'RED'],
+    ['str', 'r\udce9s'], ['str', 'r\udce8s'], ['str', 'r?s'], ['str', 'adam'],
+    ['enum', 'lv_pkg.sub.defs', 'Color', 'RED'], ['enum', 'lv_pkg.other', 'Color', 'RED'],
 ]
+# enum members that compare equal to plain ints / strs: only where == is not what is being compared (C07, C09)
+MIXED_POOL = [['enum', 'lv_universe', 'Level', 'ONE'], ['enum', 'lv_universe', 'Level', 'TWO'], ['enum', 'lv_universe', 'Opt', 'ADAM']]
 BAD_POOL = [['bad', 'set'], ['bad', 'bytes'], ['bad', 'object'], ['bad', 'complex'], ['bad', 'type']]
 TASK_TYPES = [('lv_universe', 'V1', ['a', 'b']), ('lv_universe', 'V2', ['x']), ('lv_universe2', 'V2', ['x']),
+              ('lv_pkg.sub.defs', 'V2', ['x']), ('lv_pkg.other', 'V2', ['x']),
               ('lv_universe', 'V', ['x']), ('lv_universe', 'VV', ['x']), ('lv_universe', 'VPost', ['x'])]
 KEY_POOL = ['k', 'a', 'b', 'name', 'x', '', 'é', 'a b', '__class__']
 
 
-def gen_spec(rng, depth=0, *, bad=0.0, reserved=0.0, tasks=True, nan=True):
+def gen_spec(rng, depth=0, *, bad=0.0, reserved=0.0, tasks=True, nan=True, mixed=False):
     """A random parameter-tree spec.  bad: probability mass of unsupported leaves / non-string keys;
     reserved: probability of a dict spelling a serialised task/enum."""
     r = rng.random()
     if depth >= 3 or r < 0.35:
         if rng.random() < bad:
             return rng.choice(BAD_POOL)
-        s = rng.choice(SCALAR_POOL)
+        s = rng.choice(SCALAR_POOL + MIXED_POOL) if mixed else rng.choice(SCALAR_POOL)
         if not nan and s == ['float', 'nan']:
             s = ['float', (1.5).hex()]
         return s
     if r < 0.55:
         kind = rng.choice(['list', 'tuple', 'tuple', 'mytuple'])
-        return [kind, [gen_spec(rng, depth + 1, bad=bad, reserved=reserved, tasks=tasks, nan=nan) for _ in range(rng.randint(0, 3))]]
+        return [kind, [gen_spec(rng, depth + 1, bad=bad, reserved=reserved, tasks=tasks, nan=nan, mixed=mixed) for _ in range(rng.randint(0, 3))]]
     if r < 0.78:
         if rng.random() < reserved:
             if rng.random() < 0.5:
                 return ['dict', False, [[['str', '_is_task'], ['bool', True]], [['str', '__class__'], ['str', 'lv_universe.V2']],
-                                        [['str', 'x'], gen_spec(rng, depth + 1, tasks=tasks, nan=nan)]]]
+                                        [['str', 'x'], gen_spec(rng, depth + 1, tasks=tasks, nan=nan, mixed=mixed)]]]
             return ['dict', True, [[['str', '_is_enum'], ['bool', True]], [['str', '__class__'], ['str', 'lv_universe.Color']],
                                    [['str', 'name'], ['str', 'RED']]]]
         keys = rng.sample(KEY_POOL, rng.randint(0, 3))
@@ -63,11 +72,11 @@ def gen_spec(rng, depth=0, *, bad=0.0, reserved=0.0, tasks=True, nan=True):
             ks = ['str', k]
             if rng.random() < bad:
                 ks = rng.choice([['int', '3'], ['none'], ['tuple', []]])
-            kvs.append([ks, gen_spec(rng, depth + 1, bad=bad, reserved=reserved, tasks=tasks, nan=nan)])
+            kvs.append([ks, gen_spec(rng, depth + 1, bad=bad, reserved=reserved, tasks=tasks, nan=nan, mixed=mixed)])
         return ['dict', rng.random() < 0.4, kvs]
     if tasks:
         mod, name, fields = rng.choice(TASK_TYPES)
-        return ['task', mod, name, [[f, gen_spec(rng, depth + 1, bad=0.0, reserved=reserved, tasks=tasks, nan=nan)] for f in fields]]
+        return ['task', mod, name, [[f, gen_spec(rng, depth + 1, bad=0.0, reserved=reserved, tasks=tasks, nan=nan, mixed=mixed)] for f in fields]]
     return rng.choice(SCALAR_POOL[:14])
 
 
@@ -84,7 +93,7 @@ def build(spec):
     if k == 'str':
         return spec[1]
     if k == 'enum':
-        return getattr({'lv_universe': U, 'lv_universe2': U2}[spec[1]], spec[2])[spec[3]]
+        return getattr(MODULES[spec[1]], spec[2])[spec[3]]
     if k == 'list':
         return [build(x) for x in spec[1]]
     if k == 'tuple':
@@ -95,7 +104,7 @@ def build(spec):
         d = {build(ks): build(v) for ks, v in spec[2]}
         return frozendict(d) if spec[1] else d
     if k == 'task':
-        cls = getattr({'lv_universe': U, 'lv_universe2': U2}[spec[1]], spec[2])
+        cls = getattr(MODULES[spec[1]], spec[2])
         return cls(**{f: build(v) for f, v in spec[3]})
     if k == 'bad':
         return {'set': set(), 'bytes': b'x', 'object': object(), 'complex': 1j, 'type': int}[spec[1]]
@@ -206,7 +215,11 @@ def g_opt(x):
 ENV = ('{| task_classes := ' + g_list([f'({g_s(m + "." + n)}, {g_list([g_s(f) for f in fs])})' for m, n, fs in TASK_TYPES]) +
        '; enum_classes := ' + g_list([f'({g_s("lv_universe.Color")}, {g_list([g_s("RED"), g_s("GREEN")])})',
                                       f'({g_s("lv_universe.Shade")}, {g_list([g_s("RED"), g_s("DARK")])})',
-                                      f'({g_s("lv_universe2.Color")}, {g_list([g_s("RED"), g_s("GREEN")])})']) + ' |}')
+                                      f'({g_s("lv_universe2.Color")}, {g_list([g_s("RED"), g_s("GREEN")])})',
+                                      f'({g_s("lv_pkg.sub.defs.Color")}, {g_list([g_s("RED"), g_s("GREEN")])})',
+                                      f'({g_s("lv_pkg.other.Color")}, {g_list([g_s("RED"), g_s("GREEN")])})',
+                                      f'({g_s("lv_universe.Level")}, {g_list([g_s("ONE"), g_s("TWO")])})',
+                                      f'({g_s("lv_universe.Opt")}, {g_list([g_s("ADAM"), g_s("SGD")])})']) + ' |}')
 
 VALUES_IMPORTS = ('Require Import LT.Model.Base LT.Model.Values LT.Model.ValuesCheck LT.Gen.SrcParams.\n'
                   f'Definition the_env : env := {ENV}.\n')
@@ -220,6 +233,10 @@ def construct(spec):
         raw = build(spec)
     except TypeError as e:      # unhashable dict key while *building* the raw value
         return ('unbuildable', repr(e))
+    except TaskError as e:      # a nested task's constructor rejected its parameters
+        return ('taskerror', str(e))
+    except BaseException as e:   # noqa  (a nested task's constructor raised something else)
+        return ('other', repr(e))
     try:
         return ('ok', U.V2(x=raw))
     except TaskError as e:
